@@ -791,6 +791,85 @@ def r01k(rep, F):
             if not cl.bad else cl.bad[0][0], cl.bad[0][1] if cl.bad else None)
 
 
+def r01l(rep, F):
+    rep.rule('R01l', 'lazy bidirectional planners (SBL, pSBL, LBKPIECE1): where the two trees are joined through a junction node X created '
+                     'with `new`, filled by copyState(X->state, Y->state) from the other tree\'s node Y and linked under the extending '
+                     'motion, the condition that guards the extraction of the solution validates exactly these two: isPathValid(., X) '
+                     'and isPathValid(., Y).  Validating the parent instead of X leaves the joining motion itself unchecked')
+    n = 0
+    for f in F.functions:
+        if not f.body or '/geometric/planners/' not in f.file:
+            continue
+        calls = [c for c in f.walk() if (c.get('callee') or '').endswith('::isPathValid')]
+        if len(calls) < 2:
+            continue
+        fresh = set()
+        for x in f.walk():
+            if x['k'] == 'DeclStmt':
+                for d in x.get('decls', []):
+                    if d.get('init') and any(y['k'] == 'CXXNewExpr' for y in f.walk(d['init'])):
+                        fresh.add('%s#%d' % (d['name'], d['did']))
+        junction = None
+        for c in f.walk():
+            if (c.get('callee') or '').endswith('::copyState') and len(args(f, c)) == 2:
+                a0, a1 = f.strip(args(f, c)[0]), f.strip(args(f, c)[1])
+                if a0 is not None and a1 is not None and a0['k'] == 'MemberExpr' and a1['k'] == 'MemberExpr' and \
+                        a0.get('name') == 'state' and a1.get('name') == 'state':
+                    x, y = key(f, a0['ch'][0]), key(f, a1['ch'][0])
+                    if x in fresh and y:
+                        junction = (x, y)
+        if junction is None:
+            continue
+        got = sorted(key(f, args(f, c)[1]) or '?' for c in calls if len(args(f, c)) >= 2)
+        n += 1
+        ok = got == sorted(junction)
+        rep.add('R01l', f.name, 'junction-validated', ok, f.where(calls[0]),
+                'isPathValid on the junction node %s and on %s' % (junction[0].split('#')[0], junction[1].split('#')[0]) if ok else
+                'the solution is extracted after isPathValid on %s, but the junction is %s -> %s: the joining motion is not validated'
+                % ([g.split('#')[0] for g in got], junction[0].split('#')[0], junction[1].split('#')[0]))
+    rep.require_count('R01l', 'junction validations', n, 3)
+
+
+def r01m(rep, F):
+    rep.rule('R01m', 'delegating planners: a function that runs another planner (P->solve(...), P not this) and re-registers its path as an '
+                     'exact solution (AnytimePathShortening::addPath, or addSolutionPath with approximate == false) does so only inside an '
+                     'if whose condition compares the returned status with EXACT_SOLUTION (or asks hasExactSolution()); PlannerStatus\'s '
+                     'operator bool is also true for APPROXIMATE_SOLUTION')
+    n = 0
+    for f in F.functions:
+        if not f.body or '/planners/' not in f.file:
+            continue
+        sub = [c for c in f.walk() if (c.get('callee') or '').endswith('Planner::solve') and c['ch'] and
+               (f.strip(c['ch'][0]) or {}).get('k') != 'CXXThisExpr']
+        if not sub:
+            continue
+        regs = []
+        for c in f.walk():
+            cal = c.get('callee') or ''
+            if cal.endswith('AnytimePathShortening::addPath'):
+                regs.append(c)
+            elif cal.endswith('ProblemDefinition::addSolutionPath') and len(args(f, c)) >= 2:
+                a1 = f.strip(args(f, c)[1])
+                if a1 is not None and a1['k'] == 'CXXBoolLiteralExpr' and not a1['v']:
+                    regs.append(c)
+        for r in regs:
+            ok = False
+            for anc in f.ancestors(r['id']):
+                if anc['k'] == 'IfStmt' and anc.get('cond') and any(x['id'] == r['id'] for x in f.walk(anc['then'])):
+                    names = [x.get('name') for x in f.walk(anc['cond']) if x['k'] == 'DeclRefExpr']
+                    eq = any((x['k'] == 'BinaryOperator' and x.get('op') == '==') or (x['k'] == 'CXXOperatorCallExpr' and x.get('oop') == '==')
+                             for x in f.walk(anc['cond']))
+                    exact_q = any((x.get('callee') or '').endswith('::hasExactSolution') for x in f.walk(anc['cond']))
+                    if ('EXACT_SOLUTION' in names and eq) or exact_q:
+                        ok = True
+            n += 1
+            rep.add('R01m', f.name, 'exact-only@%d' % len([1 for o in rep.obl if o['rule'] == 'R01m' and o['function'] == f.name]), ok, f.where(r),
+                    'registered under status == EXACT_SOLUTION' if ok else
+                    'the sub-planner\'s path is registered as an exact solution without a test for EXACT_SOLUTION: an approximate path of the '
+                    'sub-planner becomes an "exact" solution that does not reach the goal')
+    rep.require_count('R01m', 'delegated registrations', n, 1)
+
+
 def run(rep):
     units = P.geometric_units() + P.multilevel_units() + P.base_units()
     F = facts.load_units(units)
@@ -817,3 +896,5 @@ def run(rep):
     c02.r02f(rep, F, files_pat='/geometric/planners/', rule='R01i', frozen=10)
     r01j(rep, F)
     r01k(rep, F)
+    r01l(rep, F)
+    r01m(rep, F)
